@@ -24,6 +24,14 @@ One constructor of `Norm` per normalisation class, one `def` per C++ function th
                          The crystal pair of a bin and the symmetry expansion of the geometric factors are data (C01 / C20).
 * `Norm.chained`         `ChainedBinNormalisation::{apply,undo,get_bin_efficiency}` (src/recon_buildblock/ChainedBinNormalisation.cxx:91-98, :137-144, :186-190; constructor check :49-54),
                          `Norm.null` is a null `shared_ptr` member (skipped, efficiency 1).
+                         `applyOnlyFirst/Second`, `undoOnlyFirst/Second` (:110-136, :159-185), `isFirstTrivial`, `isSecondTrivial`
+                         (:194-208): the partial application of a chain with members `n1 n2`.
+* `fromAttenSetUp`       the TOF refusal of `BinNormalisationFromAttenuationImage::set_up` (:123-131);
+  `componentsSetUp`      what `BinNormalisationPETFromComponents::set_up` → `create_proj_data` → `make_fan_data_remove_gaps` /
+                         `get_fan_info` (src/buildblock/ML_norm.cxx:974-995, :1138-1146) refuse with `error`.
+* `UseTree`, `useRV`, `useWhole`  which set-up states are checked before any data are touched (`BinNormalisation::check`,
+                         called by `apply/undo` of every class except `TrivialBinNormalisation` and `ChainedBinNormalisation`
+                         on related viewgrams, and by the whole-data loops of all of them).
 * `Norm.trivial`         `TrivialBinNormalisation` (src/include/stir/recon_buildblock/TrivialBinNormalisation.h).
 * `applyData`, `applyGroups`, … the whole-`ProjData` loops `BinNormalisation::apply/undo(ProjData&, symmetries)`
                          (src/recon_buildblock/BinNormalisation.cxx:123-226): for every basic view/segment and TOF position get the
@@ -200,9 +208,73 @@ def chainCtorOk (cal1 cal2 : K) : Bool := !(decide (0 < cal1) && decide (0 < cal
 def fromProjDataSetUp (equal ge tangMinEq tangMaxEq axialRangesEq : Bool) : Bool :=
   if equal then true else ge && tangMinEq && tangMaxEq && axialRangesEq
 
+/-! ### `ChainedBinNormalisation`: partial application (the chain has members `n1 n2`, either may be `Norm.null`) -/
+
+/-- `apply_only_first(RelatedViewgrams&)` (:110-115; the `ProjData&` version :117-122 is the same per bin): `if (!is_null_ptr(apply_first)) apply_first->apply(viewgrams)` -/
+def applyOnlyFirst (E : K → K) (floor : K) (n1 _n2 : Norm K) (b : Bin) (v : K) : Option K := apply E floor n1 b v
+/-- `apply_only_second(RelatedViewgrams&)` (:124-129, :131-136) -/
+def applyOnlySecond (E : K → K) (floor : K) (_n1 n2 : Norm K) (b : Bin) (v : K) : Option K := apply E floor n2 b v
+/-- `undo_only_first(RelatedViewgrams&)` (:159-164, :166-171) -/
+def undoOnlyFirst (E : K → K) (n1 _n2 : Norm K) (b : Bin) (v : K) : Option K := undo E n1 b v
+/-- `undo_only_second(RelatedViewgrams&)` (:173-178, :180-185) -/
+def undoOnlySecond (E : K → K) (_n1 n2 : Norm K) (b : Bin) (v : K) : Option K := undo E n2 b v
+
+/-- `is_first_trivial()` (:194-200): `error` (here `none`) if the member is null, else the member's `is_trivial()` -/
+def isFirstTrivial (tol : K) (n1 _n2 : Norm K) : Option Bool :=
+  match n1 with
+  | .null => none
+  | n => some (isTrivial tol n)
+/-- `is_second_trivial()` (:202-208) -/
+def isSecondTrivial (tol : K) (_n1 n2 : Norm K) : Option Bool :=
+  match n2 with
+  | .null => none
+  | n => some (isTrivial tol n)
+
+/-! ### set-up decisions and the check on use -/
+
 /-- `BinNormalisation::check(const ProjDataInfo&)` (src/recon_buildblock/BinNormalisation.cxx:70-78), called by every
     `apply`/`undo`: `error` unless `set_up` was called and the geometry of `set_up` is `>=` the geometry of the data -/
 def checkUse (alreadySetUp setUpGeometryGE : Bool) : Bool := alreadySetUp && setUpGeometryGE
+
+/-- `BinNormalisationFromAttenuationImage::set_up` (:123-131): `error` iff `get_num_tof_poss() > 1` -/
+def fromAttenSetUp (numTofPoss : Int) : Bool := !(decide (1 < numTofPoss))
+
+/-- `BinNormalisationPETFromComponents::set_up` (:69-108): the comparison with the geometry given to `allocate` comes after
+    the base class has overwritten `proj_data_info_sptr` (so it cannot fail); then `create_proj_data` calls
+    `make_fan_data_remove_gaps`, which calls `error` for TOF data, view mashing, or axial compression (span > 1) -/
+def componentsSetUp (tofData viewMashing axialCompression : Bool) : Bool :=
+  !tofData && !viewMashing && !axialCompression
+
+/-- the set-up state of an object (tree for chains), as far as `check` looks at it:
+    `setUp` = `_already_set_up`, `ge` = (geometry given to `set_up`) `>=` (geometry of the data) -/
+inductive UseTree where
+  /-- a null member of a chain -/
+  | null
+  /-- `TrivialBinNormalisation`: `apply/undo(RelatedViewgrams&)` are empty (no check) -/
+  | noCheck (setUp ge : Bool)
+  /-- every class whose `apply/undo(RelatedViewgrams&)` starts with `this->check(...)` -/
+  | checked (setUp ge : Bool)
+  /-- `ChainedBinNormalisation`: `apply/undo(RelatedViewgrams&)` only call the members -/
+  | chain (setUp ge : Bool) (first second : UseTree)
+
+/-- does `apply/undo(RelatedViewgrams&)` run without `error`? -/
+def useRV : UseTree → Bool
+  | .null => true
+  | .noCheck _ _ => true
+  | .checked su ge => checkUse su ge
+  | .chain _ _ f s => useRV f && useRV s
+
+/-- the object's own `_already_set_up` / geometry (what `BinNormalisation::apply/undo(ProjData&, …)` checks first;
+    a null pointer has no such call) -/
+def ownCheck : UseTree → Bool
+  | .null => true
+  | .noCheck su ge => checkUse su ge
+  | .checked su ge => checkUse su ge
+  | .chain su ge _ _ => checkUse su ge
+
+/-- does `apply/undo(ProjData&, symmetries)` run without `error`?  (`check(ProjDataInfo)`, `check(ExamInfo)`, then the
+    related-viewgrams version for every group) -/
+def useWhole (examEq : Bool) (t : UseTree) : Bool := ownCheck t && examEq && useRV t
 
 /-! ### whole data sets -/
 
